@@ -230,7 +230,7 @@ def f14():
     return ok, "typed containers of encoded items reload: %r %r %r" % (list(c2.bl), dict(c2.bd), list(c2.sl))
 
 
-@witness("F15", ["C03"])
+@witness("F15", ["C03", "C02"])
 def f15():
     from cincoconfig import Schema, SecureField
     d = _tmp()
